@@ -24,6 +24,8 @@ for sd in seeds:
     subprocess.run(['git', '-C', '/repo', 'worktree', 'add', '-q', '--detach', wt, 'HEAD'], check=True)
     try:
         r = subprocess.run(['git', '-C', wt, 'apply', os.path.join(d, 'patch.diff')], capture_output=True, text=True)
+        if r.returncode != 0:   # HEAD moved next to the patched lines (fix commits): retry with reduced context
+            r = subprocess.run(['git', '-C', wt, 'apply', '-C1', '--recount', os.path.join(d, 'patch.diff')], capture_output=True, text=True)
         if r.returncode != 0:
             print('%-8s patch does not apply to HEAD: %s' % (sd, r.stderr.strip()[:200])); continue
         for p in props:
